@@ -248,6 +248,15 @@ func Goroutines(on bool) {}
 // NativeRounds), so Observe/Reach only schedule-independent facts.
 func Schedules(k int) {}
 
+// Races(true), after Schedules: happens-before data-race detection on the
+// explored schedules (vector clocks over lock/unlock, channel operations,
+// WaitGroup, atomics, Once, Pool, goroutine start; pointer loads/stores and map
+// operations are the checked accesses).  A candidate is confirmed natively
+// with the Go race detector (the replay binary is built with -race for it) and
+// reported as the violation `data-race`; unconfirmed candidates are dropped.
+// No-op natively.
+func Races(on bool) {}
+
 // NativeRounds returns 1 under the engine and n in the native replay: the
 // harness repeats its concurrent experiment that many times natively (real
 // threads, the Go scheduler picks the interleavings) so that a schedule the
